@@ -769,10 +769,21 @@ def random_module(seed, idx):
         if isinstance(e, Opt):
             e = e.inner
         return Res(o, e, rnd.choice(["std", "diplomat"]))
+    def leaves(t):
+        return t.nleaves(m) if (t is not None and hasattr(t, "nleaves")) else 0
     for i in range(rnd.randint(5, 8)):
         ps = [("p%d" % k, param()) for k in range(rnd.randint(0, 4))]
+        while sum(leaves(t) for _, t in ps) > 40:      # keep within the observation log / seed capacity
+            ps.pop()
         sk = rnd.choice([None, "ref", "ref", "mut"])
-        m.method("Ob", "m%d" % i, sk, ps, ret())
+        r = ret()
+        for _ in range(20):
+            if leaves(r) <= 36:
+                break
+            r = ret()
+        else:
+            r = None
+        m.method("Ob", "m%d" % i, sk, ps, r)
     m.method("Ob", "new", None, [("tag", P("u32"))], OpaqueBox("Ob"))
     return m
 
